@@ -38,7 +38,7 @@ ASSUMPTIONS = [
     "transform = 6 coefficients in affine.Affine/rasterio order (a,b,c,d,e,f): x' = a*x + b*y + c, y' = d*x + e*y + f "
     "(the docstring only says 'affine transform', shape (6,)); passed as a float64 array; coefficients are dyadic so "
     "the expected vertices are exact in float64",
-    "values are small integers (0,1,2), also as float64, and the float alphabets {-1.5, 0.0, 2.5} and {-2.0, -1.0} "
+    "values are small integers (0,1,2), also as float64, pairs of large integers 1 apart (1e6, -3e5, 2^53; integer dtypes only), and the float alphabets {-1.5, 0.0, 2.5} and {-2.0, -1.0} "
     "(float64 and float32; exactly representable, pairwise >= 1 apart): the float comparison of polygonize is an "
     "isclose() with rtol 1e-5, 'equal value' regions for nearly-equal floats are outside the statement and not "
     "generated; no NaN",
@@ -140,6 +140,11 @@ SPEC = {
         ("3x3_neg2l", [(3, 3)], NEG2, FLT, "none", "bool"),
         ("lines8_neg2l", LINES(8), NEG2, FLT, "none", "bool"),
         ("small6_neg2l", [(2, 2), (2, 3), (3, 2)], NEG2, ("float64",), "all", "bool"),
+        # integer rasters whose neighbouring values differ by 1 at a large magnitude (ids, timestamps): integers are compared
+        # exactly, never with the relative tolerance of the float comparison; 2^53 + 1 is not a float64
+        ("3x3_big2l", [(3, 3)], (1000000, 1000001), ("int64", "int32"), "none", "bool"),
+        ("3x3_huge2l", [(3, 3)], (2 ** 53, 2 ** 53 + 1), ("int64",), "none", "bool"),
+        ("small6_negbig2l", [(2, 3), (3, 2)], (-300001, -300000), ("int64",), "all", "bool"),
         # memory layout of raster / mask (non-square shapes: memory order != logical order)
         ("rect6_2l", RECT6, (0, 1), ("int64",), "all", "bool", LAYOUT_PAIRS),
         ("rect6_2l", RECT6, (0, 1), ("float64",), "all", "bool", [("F", "F")]),
